@@ -329,7 +329,7 @@ class Runner:
 
     def run_job_locked(self, job, b, res, timeout, mem):
         extra = []
-        if job.mode == 'mem':
+        if job.mode == 'mem' and job.engine == 'A':   # Engine B: ir2c emits pointer orderings through IR2C_PTRCMP, so the generated C contains no 'pointer relation' checks to drop
             # CBMC treats a failed standard check as fatal and reports later properties on such paths as UNKNOWN.  MicroMessage.c (and others)
             # form and compare out-of-bounds pointers by design; those 'pointer relation'/'pointer arithmetic' checks are unconfirmable UB that
             # never decides a verdict (DESIGN 3.1), so they are removed from the query instead of being allowed to mask what follows them.
